@@ -548,7 +548,7 @@ func init() {
 				Name: "parallelbuilds", Race: true, N: q(300, 8000),
 				GoMaxProcs: func(shard int) int { return []int{2, 4, 8, 16}[shard%4] },
 				Run: func(c *fw.Case) {
-					G := []int{2, 4, 8, 16}[c.Idx%4]
+					G := []int{2, 4, 8, 16}[c.R.Intn(4)] // (not c.Idx%4: the shard stride would tie G to the shard's GOMAXPROCS)
 					reqs := make([][]*batchReq, G)
 					for g := range reqs {
 						for k := 0; k < 6; k++ {
